@@ -247,7 +247,9 @@ func (Sim) Run(raw json.RawMessage, prop string, keep bool) (res simfw.Result) {
 	loader := mkLoader()
 	load := func() (doc *openapi3.T, err error, abort string) {
 		zzsimrt.CountSteps, zzsimrt.Steps, zzsimrt.StepLimit = true, 0, uint64(2_000_000+200_000*nrefs)
+		zzsimrt.ResetMapOrder(s.MapSeed)
 		defer func() {
+			zzsimrt.ResetMapOrder(0)
 			zzsimrt.CountSteps = false
 			if p := recover(); p != nil {
 				switch x := p.(type) {
